@@ -375,6 +375,25 @@ func (ch c13) runCase(c *core.Ctx, env *hs.Env, k c13case, rng *core.Rng, idx in
 	if !step("probe Query", pg.Query("probe"), "TDCZ") {
 		return
 	}
+	if idx%3 == 0 && (k.Handler == "propagate" || k.Handler == "swallow") {
+		// a second COPY on the same connection starts from a clean slate
+		evStart := len(cl.C.Events())
+		second := []byte(fmt.Sprintf("second-copy-%d", idx))
+		if !step("second COPY Query", pg.Query("copy"), "TG") || !step("second CopyData", pg.CopyData(second), "") || !step("second CopyDone", pg.CopyDone(), "CZ") {
+			return
+		}
+		var recs []hs.CopyRec
+		for _, e := range cl.C.Events()[evStart:] {
+			if e.Kind == "cb" && e.Name == "copyread" {
+				recs = append(recs, e.Data.(hs.CopyRec))
+			}
+		}
+		if len(recs) != 2 || !recs[0].ErrNil || !bytes.Equal(recs[0].Chunk, second) || !recs[1].EOF {
+			viol("second-copy", "a second COPY on the same connection does not deliver its data", fmt.Sprintf("observations %+v", recs))
+			return
+		}
+		c.Count("second_copy_cycles", 1)
+	}
 	nt := k.Term != "done" || k.Handler != "propagate" || len(k.Strays) > 0 || strings.ContainsAny(strings.Join(k.Seq, ""), "HS")
 	c.Eval(k.sig(), nt)
 	if idx < 3 {
